@@ -242,6 +242,10 @@ func gcChild(args []string) int {
 		for si, sh := range gcShapes() {
 			vals := genValues(c.rng, sh.typ, 2+c.rng.Intn(4))
 			gcFatten(c.rng, vals)
+			if (round+si)%2 == 1 && len(vals) >= 3 {
+				// the record the application will drop (see the callback) takes nothing from its bank
+				vals[1].Set(reflect.Zero(sh.typ))
+			}
 			codec := codecs3[(round+si)%3]
 			cfg := rtConfig{Codec: codec, Block: []int{0, 50, 1 << 20}[(round+si)%3], Flush: map[int]bool{}}
 			w := &recWriter{}
@@ -259,6 +263,7 @@ func gcChild(args []string) int {
 			f.Sync()
 			var kept []reflect.Value
 			var banks []*avro.ResourceBank
+			dropped := map[int]bool{}
 			every = int64(1 + c.rng.Intn(4))
 			func() {
 				defer func() {
@@ -269,12 +274,18 @@ func gcChild(args []string) int {
 				inDecode.Store(true)
 				err := avro.ReadFile(bytes.NewReader(w.out), reflect.New(sh.typ).Elem().Interface(), func(val unsafe.Pointer, rb *avro.ResourceBank) error {
 					inDecode.Store(false)
-					banks = append(banks, rb)
 					cp := reflect.New(sh.typ).Elem()
 					cp.Set(reflect.NewAt(sh.typ, val).Elem())
 					kept = append(kept, cp)
 					gcNow() // a collection inside the callback
 					res.Delivered = append(res.Delivered, safeProject(cp))
+					if (round+si)%2 == 1 && len(kept)%3 == 2 {
+						// the application drops this record: its bank goes back at once, the others are kept
+						dropped[len(kept)-1] = true
+						rb.Close()
+					} else {
+						banks = append(banks, rb)
+					}
 					inDecode.Store(true)
 					return nil
 				})
@@ -282,7 +293,11 @@ func gcChild(args []string) int {
 				res.Err = errString(err)
 				gcNow() // after the read; the ReadBuf and its bank are gone, the retained banks are still open
 				gcNow()
-				for _, v := range kept {
+				for i, v := range kept {
+					if dropped[i] {
+						res.After = append(res.After, res.Delivered[i]) // nothing to look at any more
+						continue
+					}
 					res.After = append(res.After, safeProject(v))
 				}
 			}()
